@@ -22,10 +22,15 @@ ASSUME = [
     "run through the unchanged KeepAliveTracker / poll_next code. Real-time keep-alive behaviour is C09",
     "one stimulus at a time, single thread: the interleavings explored are those of inbox contents, polls, calls and "
     "connection-side steps; two services (keep-alive Yes/No) share the manager's substream id allocator",
-    "real-network part: two real nodes over loopback TCP (public API, multi-threaded runtime, single and simultaneous "
-    "dials, force_close from either side racing with open requests, open requests on a protocol the remote lacks); one "
-    "observer per node; 'answered exactly once' is judged only while the nodes are linked by one connection, after waiting "
-    "6x the configured substream open timeout; runs that did not connect or ran on a stalled machine are discarded",
+    "real-network part: two real nodes over loopback tcp / websocket / quic (public API, multi-threaded runtime, single and "
+    "simultaneous dials, force_close from either side racing with open requests, open requests on a protocol the remote "
+    "lacks); one observer per node; 'answered exactly once' is judged only while the nodes are linked by one connection, "
+    "after waiting 6x the configured substream open timeout; runs that did not connect or ran on a stalled machine (20 ms "
+    "canary timer overshooting) are discarded",
+    "timeout scenarios: every task litep2p spawned for the remote node is held through its executor (its kernel sockets / "
+    "quinn endpoint driver keep accepting bytes and streams, nobody answers multistream-select); substream open timeout 1 s, "
+    "the answer may take 7 s, the remote is released after 3 s so that the link itself stays alive; not judged if the link "
+    "ended meanwhile",
     "TLC bounds: see model_runs / generation in the evidence (1-2 peers, up to 3 connection ids per peer, up to 3 open "
     "requests, inbound substreams, force_close, keep-alive expiry, window between report_connection_closed and task end)",
 ]
@@ -206,8 +211,10 @@ def classify(seg, idx, reason):
         return "malformed-trace"
     ev = json.loads(seg[idx - 1])
     s = ev.get("s", {})
-    if s.get("a", "").startswith("n") and s.get("a") in ("nev", "nopen", "nterm"):
-        return "net-" + slug(reason)
+    head = json.loads(seg[0])
+    if head.get("src") == "net":
+        # real nodes: transport and scenario kind are part of the signature
+        return "net-%s-%s%s" % (head.get("transport", "tcp"), "open-timeout-" if head.get("kind") == "timeout" else "", slug(reason))
     if reason == "panic":
         msg = ev.get("ret", {}).get("msg", "")
         return "panic-in-%s%s" % (s.get("a", "?"), "-debug-assert" if "assertion failed" in msg else "")
@@ -221,19 +228,34 @@ def pipeline(ctx):
     write_jsonl(ctx.path("behs.jsonl"), behs)
     build_s = cargo_build(ctx, ["svc"])
     nrand, rlen = (600, 70) if ctx.quick() else (5000, 90)
-    nnet = 25 if ctx.quick() else 250
+    # real nodes: tcp in full, websocket / quic a sample, plus the never-answered outbound open on each transport
+    plan = "tcp:mix:20,ws:mix:7,quic:mix:7,tcp:timeout:2,ws:timeout:2,quic:timeout:2" if ctx.quick() else \
+           "tcp:mix:200,ws:mix:70,quic:mix:70,tcp:timeout:8,ws:timeout:8,quic:timeout:8"
+    nnet = plan
     summ, _ = harness(ctx, "svc", ["--behaviours", ctx.path("behs.jsonl"), "--random", nrand, "--len", rlen,
                                    "--seed", ctx.seed, "--out", ctx.path("trace.ndjson"),
                                    "--net", nnet, "--netout", ctx.path("net.ndjson")], timeout=3000)
     log("HARNESS: %s (build %ss)" % (summ, build_s))
     lines = read_lines(ctx.path("trace.ndjson"))
     netlines = read_lines(ctx.path("net.ndjson"))
-    if summ["net"].get("net_runs", 0) < nnet // 2:
-        raise ToolError("real-network part: only %s of %d scenarios could be run (%s discarded)" %
-                        (summ["net"].get("net_runs"), nnet, summ["net"].get("net_discarded")))
+    for item, st in summ["net"]["plan"].items():
+        if st["runs"] < max(1, st["wanted"] // 2):
+            raise ToolError("real-network part %s: only %s of %s scenarios could be run (discarded: %s)" %
+                            (item, st["runs"], st["wanted"], st["discard_reasons"]))
+        if item.endswith(":timeout") and st["held_opens"] == 0:
+            raise ToolError("real-network part %s: no open request was accepted while the remote was held" % item)
     nseg, nev, rejects = validate_all(ctx, "SvcLifeTrace.tla", "SvcLifeTrace.cfg", lines, mode="prop")
     nseg2, nev2, rej2 = validate_all(ctx, "SvcLifeTrace.tla", "SvcLifeTrace.cfg", netlines, mode="prop", tag="n")
     summ["net"]["segments"], summ["net"]["events"] = nseg2, nev2
+    per = {}
+    cur = None
+    for ln in netlines:
+        if '"e":"reset"' in ln:
+            cur = json.loads(ln).get("transport", "tcp")
+            per.setdefault(cur, {"segments": 0, "events": 0})["segments"] += 1
+        elif cur:
+            per[cur]["events"] += 1
+    summ["net"]["per_transport"] = per
     for r in rej2:
         r.net = True
     rejects = rejects + rej2
